@@ -14,26 +14,36 @@ Import ListNotations.
 Definition rel_C09 (m o : obs) : bool :=
   zlist_eqb (o_started m) (o_started o) && zlist_eqb (o_returned m) (o_returned o).
 
-(* fold over the script: (#Enqueue calls, #started, #released, pure, subs, errs);
-   pure = no Dequeue / Stop / Break so far; subs = some Errors() subscription so far; errs = some work function returned
-   an error so far.  A completion with an error counts as a completion: its worker hands its token back like any
-   other (with no subscriber the monitor just drops the error).  Only when BOTH a subscriber and an error exist can a
-   worker be held up at errChan by a fan-out that waits for a subscriber; then the equality is left to the
-   model-relative comparison and only running <= W is asserted here. *)
-Fixpoint mon_run (W : nat) (sc : list (stim * obs)) (enq started fin : nat) (pure subs errs : bool) : bool :=
+(* fold over the script: (#Enqueue calls, ids started, #released, ids dequeued, pure, subs, errs);
+   pure = no Stop / Break so far; subs = some Errors() subscription so far; errs = some work function returned an
+   error so far.  A completion with an error counts as a completion: its worker hands its token back like any other
+   (with no subscriber the monitor just drops the error).  Only when BOTH a subscriber and an error exist can a worker
+   be held up at errChan by a fan-out that waits for a subscriber; then the equality is left to the model-relative
+   comparison and only running <= W is asserted here.
+   A Dequeue that returns nil for an accepted item that has not started takes that item out of the unfinished ones
+   (C16: it never starts); any other Dequeue changes nothing.  So k = Enqueue calls - completions - such dequeues. *)
+Fixpoint mon_run (W : nat) (sc : list (stim * obs)) (enq : nat) (started : list Z) (fin : nat) (deq : list Z)
+         (pure subs errs : bool) : bool :=
   match sc with
   | [] => true
   | (st, o) :: rest =>
       let enq' := match st with SEnq _ _ _ => S enq | _ => enq end in
       let fin' := match st with SFinish _ _ => S fin | _ => fin end in
-      let pure' := pure && match st with SDequeue _ | SStop | SBreak => false | _ => true end in
+      let deq' := match st with
+                  | SDequeue i =>
+                      if (o_res o =? 0)%Z && (0 <=? i)%Z && (i <? Z.of_nat enq)%Z
+                         && negb (zmem i started) && negb (zmem i deq)
+                      then i :: deq else deq
+                  | _ => deq
+                  end in
+      let pure' := pure && match st with SStop | SBreak | SBatch _ => false | _ => true end in
       let subs' := subs || match st with SErrSub => true | _ => false end in
       let errs' := errs || match st with SFinish _ e => negb (e <? 0)%Z | _ => false end in
       let exact := pure' && negb (subs' && errs') in
-      let started' := started + length (o_started o) in
-      let running := started' - fin' in
-      (running <=? W) && (negb exact || (running =? Nat.min (enq' - fin') W))
-      && mon_run W rest enq' started' fin' pure' subs' errs'
+      let started' := started ++ o_started o in
+      let running := length started' - fin' in
+      (running <=? W) && (negb exact || (running =? Nat.min (enq' - fin' - length deq') W))
+      && mon_run W rest enq' started' fin' deq' pure' subs' errs'
   end.
 (* Back-pressure bounds on the log alone, while nothing has completed: the number of returned Enqueue calls never
    exceeds L + 2W + 1, and while some call is blocked at a quiescent moment at least W + L + 1 have returned.  L is the
@@ -54,7 +64,7 @@ Fixpoint mon_bp (W L : nat) (sc : list (stim * obs)) (enq ret : nat) : bool :=
       end
   end.
 Definition mon_C09 (c : wcase) : bool :=
-  mon_run (n (c_W c)) (c_script c) 0 0 0 true false false
+  mon_run (n (c_W c)) (c_script c) 0 [] 0 [] true false false
   && mon_bp (n (c_W c)) (n (c_L c)) (c_script c) 0 0.
 
 Definition case := wcase.
